@@ -65,6 +65,15 @@ def gen_cases(rng, tier, info):
         h.flush(); h.raw(); h.reopen("into_inner"); h.raw()
         cases.append(Case("rt-%d" % j, h.cmds))
     G.ASCII_ONLY = False
+    # strings whose encoded length sits exactly on the long-string escape (65,535 / 65,536 / 65,537 bytes)
+    for j, lens in enumerate([(65535, 65536, 65537), (65536, 1, 65536), (131072, 65534, 65536)]):
+        h = G.History(rng, j % 3)
+        h.add_table("Big", [mk("K", "i16", pk=True), mk("V", ("str", 0), null=True)])
+        h.insert("Big", rows=[[k + 1, "LMN"[k] * n] for k, n in enumerate(lens)] + [[9, "tail"]])
+        h.obs(); h.reopen(["flush", "into_inner", "drop"][j]); h.obs()
+        h.delete("Big", cond=("bin", "eq", ("col", "K"), ("lit", 2)))
+        h.obs(); h.reopen(); h.obs()
+        cases.append(Case("boundary-%d" % j, h.cmds))
     if tier == "thorough":
         for j in range(30):
             h = G.History(rng, j % 3)
